@@ -22,6 +22,16 @@ CHECKS["C18"] = ("exploration",
   "Enumerates every tick boundary +-3 ticks x sub-tick nanoseconds around 1601, 1970 and the tick maximum, then millions of generated times (uniform, log-uniform around the anchors, platform extremes) and near pairs.",
   "Trusted: std::time arithmetic and the harness's i128 reference arithmetic.",
   "DESIGN.md section 4, C18")
+CHECKS["C13"] = ("exploration",
+  "bounded-exhaustive enumeration of expression trees (depth <= 1 over all 18 operators x 24 leaves, depth 2 with one leaf side) + proptest-generated trees to depth 5, against a reference evaluator that returns the set of accepted results; also through select/update/delete conditions",
+  "Exhaustive on depth <= 1 (the sub-space the property names) and a depth-2 slice; generated search beyond. Oracle: independent reference evaluator (exact where documented, set of conventional answers where the documentation leaves a choice), no-panic for building and evaluating, literal form == column form.",
+  "Trusted: the harness's reference evaluator (refeval.rs, written from the rustdoc of Expr).",
+  "DESIGN.md section 4, C13 and Appendix B")
+CHECKS["C19"] = ("exploration",
+  "enumeration of every (parent, child, side) operator pair + proptest-generated trees and queries; to_string() is read back by an independent precedence-climbing reader (cross-checked against the project's own pest grammar) and compared by reference evaluation on all small assignments",
+  "All parenthesisation decisions at depth 2 are enumerated; generated trees to depth 5 and the four query kinds with nested joins. Oracle: harness reader built from the precedence ladder of the property + reference evaluator on 49/343 assignments + column/literal multisets + structural comparison of queries; second reader = examples/msiquery.pest on parenthesis-free texts.",
+  "Trusted: the harness reader and reference evaluator; the pest grammar only as a cross-check of the reader (it has no ^ operator and is exponential on nested parentheses).",
+  "DESIGN.md section 4, C19")
 NOT_YET = {}
 
 def main():
